@@ -94,17 +94,27 @@ fn find_and_play_best_move(
     while !out_of_time(start, time_to_move_ms) || best_move.is_none() {
         #[cfg(walleye_verif)]
         crate::verif::failpoint("io_loop_top");
-        if let Ok(b) = rx.try_recv() {
-            #[cfg(walleye_verif)]
-            crate::verif::io_recv(&b);
-            best_move = Some(b);
-        } else {
-            thread::sleep(Duration::from_millis(1));
+        match rx.try_recv() {
+            Ok(b) => {
+                #[cfg(walleye_verif)]
+                crate::verif::io_recv(&b);
+                best_move = Some(b);
+            }
+            // the search thread is gone and never sent a move: there is no legal move to wait for
+            Err(mpsc::TryRecvError::Disconnected) if best_move.is_none() => break,
+            Err(_) => thread::sleep(Duration::from_millis(1)),
         }
     }
     #[cfg(walleye_verif)]
     crate::verif::io_loop_exit();
-    let board = best_move.unwrap();
+    let board = match best_move {
+        Some(b) => b,
+        None => {
+            // checkmate or stalemate is on the board, answer with the UCI null move and keep the position
+            send_to_gui("bestmove 0000");
+            return board.clone();
+        }
+    };
     send_best_move_to_gui(&board);
     info!("{}", board.simple_board());
     board
